@@ -25,6 +25,13 @@ func init() {
 			runL2Random(c, res, idx, randomDupFan)
 		}},
 		kindDef{"l2.faults", tiered(120, 1800), runL2Faults},
+		// l1.branch / l2.branch: type-conditioned branches of an abstract list selecting the same
+		// relation (randomBranch): the de-duplicated owner fetch has to wait for the providers of
+		// every branch it serves (duplicates with DIFFERENT dependency sets).
+		kindDef{"l1.branch", tiered(30, 450), func(c *fw.Ctx, res *fw.Result, idx, local int) {
+			runL1Random(c, res, idx, randomBranch)
+		}},
+		kindDef{"l2.branch", tiered(36, 540), runL2Branch},
 	)
 }
 
@@ -37,6 +44,20 @@ func runL2Faults(c *fw.Ctx, res *fw.Result, idx, local int) {
 	p.infoModes, p.infoSalt = l2InfoModes(spec.Kind, rng), rng.Uint64()
 	l2Plan(c, res, acc, idx, spec, rng, p)
 	res.Sample = map[string]any{"plan": spec.String(), "executions": acc.execCount, "fault_modes": spec.faultSet(), "fetch_info_modes": fmt.Sprint(p.infoModes), "passthrough_errors": p.passthrough}
+	acc.finish(res)
+}
+
+func runL2Branch(c *fw.Ctx, res *fw.Result, idx, local int) {
+	rng := c.Rng(idx, "l2")
+	acc := &l2acc{keys: map[string]bool{}}
+	spec := randomBranch(rng)
+	p := l2params{permCap: 12, flatRandom: 3, burst: 1, free: 1, passthrough: rng.IntN(2) == 0}
+	if c.Tier == fw.Thorough {
+		p.permCap, p.flatRandom, p.burst = 24, 4, 2
+	}
+	p.infoModes, p.infoSalt = l2InfoModes(spec.Kind, rng), rng.Uint64()
+	l2Plan(c, res, acc, idx, spec, rng, p)
+	res.Sample = map[string]any{"plan": spec.String(), "executions": acc.execCount, "fetch_info_modes": fmt.Sprint(p.infoModes)}
 	acc.finish(res)
 }
 
